@@ -21,6 +21,9 @@ pub enum Drive {
     Streaming { read: u32 },
     DecodeAll { spare: u32 },
     FromTo { chunk: u32, target: u32 },
+    /// decode_all into a target that holds only keep/65536 of the content: the call has to give up
+    /// when the target is full - not decode (and hold) the rest of the frame first
+    DecodeAllUndersized { keep: u16 },
 }
 
 #[derive(Clone, Debug, Serialize, Deserialize)]
@@ -160,6 +163,7 @@ fn drive_strategy() -> impl Strategy<Value = Drive> {
         4 => (0u8..=2, n(), any::<bool>()).prop_map(|(strat, n, drain)| Drive::Blocks { strat, n, drain }),
         2 => prop_oneof![1u32..=64, 1u32..=70_000, Just(1u32 << 20)].prop_map(|read| Drive::Streaming { read }),
         1 => (0u32..=1000).prop_map(|spare| Drive::DecodeAll { spare }),
+        1 => prop_oneof![Just(0u16), any::<u16>()].prop_map(|keep| Drive::DecodeAllUndersized { keep }),
         2 => (prop_oneof![1u32..=64, 1000u32..=300_000], prop_oneof![1u32..=64, 1000u32..=300_000]).prop_map(|(chunk, target)| Drive::FromTo { chunk, target }),
     ]
 }
@@ -284,6 +288,19 @@ fn drive(frame: &[u8], expect: &[u8], window: u64, nblocks: usize, d: &Drive, wa
                 sink.take(&out[..n]);
                 Ok(())
             }
+            Drive::DecodeAllUndersized { keep } => {
+                let target = ((expect.len() as u64 * *keep as u64) >> 16) as usize;
+                let mut out = vec![0u8; target.min(8 << 20)];
+                obs.max_requested = 1 << 20;
+                let r = dec.decode_all(frame, &mut out);
+                // what the decoder is left holding when it gave up
+                obs.max_retained = obs.max_retained.max(dec.verif_buffer_len());
+                match r {
+                    Ok(n) => sink.take(&out[..n]),
+                    Err(e) => return Err(format!("decode_all: {e}")),
+                }
+                Ok(())
+            }
             Drive::FromTo { chunk, target } => {
                 let mut buf = vec![0u8; *target as usize];
                 let mut pos = 0usize;
@@ -367,6 +384,7 @@ pub fn check(case: &Case, ctx: &mut CaseCtx) -> CaseResult {
         Drive::Blocks { strat: s, .. } => ["drive:blocks_all", "drive:upto_blocks", "drive:upto_bytes"][(*s % 3) as usize],
         Drive::Streaming { .. } => "drive:streaming",
         Drive::DecodeAll { .. } => "drive:decode_all",
+        Drive::DecodeAllUndersized { .. } => "drive:decode_all_undersized_target",
         Drive::FromTo { .. } => "drive:decode_from_to",
     });
     let meter = Meter::start();
@@ -379,6 +397,16 @@ pub fn check(case: &Case, ctx: &mut CaseCtx) -> CaseResult {
         ctx.feat("overlong:must_reject");
         ensure!(obs.result.is_err(), "overlong_block_accepted",
             "a block regenerating {max_regen} bytes (> 128 KiB) was expanded instead of rejected; {} bytes delivered; frame {} ({} bytes), drive {:?}", obs.delivered, hexhead(&frame), frame.len(), case.drive);
+    } else if let Drive::DecodeAllUndersized { keep } = &case.drive {
+        let target = (((content.len() as u64 * *keep as u64) >> 16) as usize).min(8 << 20);
+        if target < content.len() {
+            // (that an undersized target is an error and not a silent truncation is C10's subject;
+            // here: what the decoder holds when it gives up is bounded by the window, the 1 MiB it
+            // asks for per internal step and one block - not by the length of the frame)
+            ctx.feat("decode_all:gave_up_on_a_full_target");
+            let bound = window as usize + (1 << 20) + BLOCK;
+            ensure!(obs.max_retained <= bound, "undersized_target_decodes_on", "decode_all with a target of {target} bytes for {} bytes of content left the decoder holding {} bytes (window {window}, bound {bound}); frame {} bytes", content.len(), obs.max_retained, frame.len());
+        }
     } else {
         if let Err(e) = &obs.result {
             // decode_all with an exact / larger target never fails on a valid frame
@@ -390,7 +418,7 @@ pub fn check(case: &Case, ctx: &mut CaseCtx) -> CaseResult {
     ensure!(obs.max_excess <= BLOCK as i64, "held_growth_exceeds_block",
         "one decode call grew the held data by {} bytes more than it was asked for (> 128 KiB): window {window}, frame {} bytes, drive {:?}", obs.max_excess, frame.len(), case.drive);
     // after a drain of an unfinished frame only the window is retained
-    ensure!(obs.max_retained as u64 <= window.max(1), "retained_more_than_window", "after draining, {} bytes retained with window {window}; drive {:?}", obs.max_retained, case.drive);
+    ensure!(matches!(case.drive, Drive::DecodeAllUndersized { .. }) || obs.max_retained as u64 <= window.max(1), "retained_more_than_window", "after draining, {} bytes retained with window {window}; drive {:?}", obs.max_retained, case.drive);
     if let Drive::Streaming { read } = &case.drive {
         ensure!(obs.max_held_streaming as u64 <= window + *read as u64 + BLOCK as u64, "streaming_holds_more_than_bound",
             "streaming decoder holds {} bytes after a read of {read} with window {window}", obs.max_held_streaming);
@@ -398,7 +426,7 @@ pub fn check(case: &Case, ctx: &mut CaseCtx) -> CaseResult {
     // (3) peak heap: catches amplification by orders of magnitude
     // (a reused decoder keeps the buffer of the largest window it has served: that allocation is the earlier frame's)
     let budget = 4 * (window as usize + obs.max_requested + BLOCK) + (8 << 20) + 2 * warm_window
-        + match &case.drive { Drive::DecodeAll { spare } => content.len().min(8 << 20) + *spare as usize, Drive::FromTo { target, .. } => *target as usize, Drive::Streaming { read } => *read as usize, _ => 0 }
+        + match &case.drive { Drive::DecodeAll { spare } => content.len().min(8 << 20) + *spare as usize, Drive::DecodeAllUndersized { .. } => content.len().min(8 << 20), Drive::FromTo { target, .. } => *target as usize, Drive::Streaming { read } => *read as usize, _ => 0 }
         + if matches!(case.drive, Drive::Blocks { drain: false, .. }) || matches!(case.drive, Drive::Blocks { strat: 0, .. }) { 3 * content.len().min(nblocks * BLOCK) } else { 0 };
     ensure!(peak <= budget, "peak_heap_exceeds_budget", "peak live heap {peak} > budget {budget} (window {window}, requested {}, frame {} bytes); drive {:?}", obs.max_requested, frame.len(), case.drive);
     ctx.nontrivial = max_regen > 65_536 || (matches!(case.src, Src::Valid(_)) && content.len() as u64 > window + BLOCK as u64);
@@ -411,7 +439,7 @@ pub fn check(case: &Case, ctx: &mut CaseCtx) -> CaseResult {
 }
 
 pub fn run(eng: &Engine) {
-    eng.set_rule("valid frames (three sources) and synthesized frames with one over-long compressed block (regenerated size around and far above 128 KiB, built from a few literals plus max-length matches, or from 20-bit RLE/raw literals), each driven by decode_blocks (All/UptoBlocks/UptoBytes, with or without draining), StreamingDecoder reads, decode_all, decode_from_to, on a new decoder or on one that has decoded a tiny frame declaring a 1..16 MiB window before; non-trivial = a block regenerating > 64 KiB, or valid content exceeding window + 128 KiB; distinct by (frame, drive) hash");
+    eng.set_rule("valid frames (three sources) and synthesized frames with one over-long compressed block (regenerated size around and far above 128 KiB, built from a few literals plus max-length matches, or from 20-bit RLE/raw literals), each driven by decode_blocks (All/UptoBlocks/UptoBytes, with or without draining), StreamingDecoder reads, decode_all (also with an undersized target), decode_from_to, on a new decoder or on one that has decoded a tiny frame declaring a 1..16 MiB window before; non-trivial = a block regenerating > 64 KiB, or valid content exceeding window + 128 KiB; distinct by (frame, drive) hash");
     eng.assume("held data observed through the hook FrameDecoder::verif_buffer_len and the per-thread counting allocator");
     eng.assume("over-long blocks capped at 2000 sequences so a missing guard cannot exhaust the sandbox");
     let n = eng.tier.pick(12_000, 200_000);
